@@ -165,6 +165,17 @@ def showObservable (i : Inst) : String :=
 /-- driver state of the instance stream: `none` = no live instance (before INIT or after a panic) -/
 def instLine (cur : Option Inst) (ws : List String) : Option Inst × String :=
   match ws with
+  | ["ACC", kind, list, id] =>
+    -- every shipped `AcceptableMasterList` implementation answers like the model's `acceptable`
+    let l : Option (List Nat) := if list = "-" then some [] else (list.splitOn ",").mapM parseClock?
+    match l, parseClock? id with
+    | some l, some c =>
+      let known := ["any", "slice", "arrayvec", "vec", "btree", "hash", "some-vec", "some-slice", "none"]
+      if !known.contains kind || (kind = "arrayvec" && l.length > 16) then (cur, "bad-op")
+      else
+        let acc : Option (List Nat) := if kind = "any" || kind = "none" then none else some l
+        (cur, s!"acc {bstr (acceptable acc c)}")
+    | _, _ => (cur, "bad-op")
   | ["DUMP"] =>
     match cur with
     | some i => (cur, showObservable i)
